@@ -258,8 +258,17 @@ def main(argv=None):
     nx = chk.extra_shards(tier)
     jobs += [(pid, tier, seed, i, nx, 'extra') for i in range(nx)]
     ctx = mp.get_context('fork')
+    limit = float(os.environ.get(
+        'VT_WATCHDOG_S', '2400' if tier == 'quick' else '14400'))
     with ctx.Pool(min(len(jobs), nshards) or 1) as pool:
-        results = pool.map(_shard_entry, jobs, chunksize=1)
+        try:
+            results = pool.map_async(_shard_entry, jobs,
+                                     chunksize=1).get(timeout=limit)
+        except mp.TimeoutError:
+            pool.terminate()
+            print(f'HARNESS ERROR: shards did not finish within {limit}s '
+                  f'(inconclusive, not a violation)', file=sys.stderr)
+            return 2
     fatal = [r['fatal'] for r in results if 'fatal' in r]
     if fatal:
         print('HARNESS ERROR in shard:\n' + fatal[0], file=sys.stderr)
